@@ -15,12 +15,14 @@ import tsanlog
 SO, USER = b'so-pin-18', b'user-pin-18'
 WORKLOADS = ['session-objects', 'token-writers', 'session-churn', 'login-churn', 'crypto']
 
-def setup(paths, ck, cfg, d, locking, seed, yield_p=0.2, yield_us=120):
+def setup(paths, ck, cfg, d, locking, seed, yield_p=0.2, yield_us=120, pre=None):
     mkconf(d, 'file'); env = dict(SAN_ENV)
     env['TSAN_OPTIONS'] = f'halt_on_error=0:report_signal_unsafe=0:history_size=5:second_deadlock_stack=1:log_path={d}/tsan.log'
     x = Exec(paths[cfg]['exe'], paths[cfg]['lib'], os.path.join(d, 'softhsm2.conf'), ck, env=env, stderr=f'{d}/stderr.log'); x.timeout = 300
     init = dict(locking=locking)
     if locking == 'cb': init['yield'] = {'seed': seed, 'p': yield_p, 'maxus': yield_us}
+    for prelock in (pre or ()):       # earlier initialisations of the same process with another locking mode: the mode of the LAST C_Initialize must be in effect
+        assert x.call('C_Initialize', locking=prelock)['rv'] == 0; assert x.call('C_Finalize')['rv'] == 0
     assert x.call('C_Initialize', **init)['rv'] == 0
     slot = x.call('C_GetSlotList', count=8)['slots'][-1]
     assert x.call('C_InitToken', slot=slot, pin=SO.hex(), label=b'tok18'.hex())['rv'] == 0
@@ -152,7 +154,7 @@ def stress_job(job):
         viol.append((k, what, detail))
     x = None
     try:
-        x, slot, s0 = setup(job['paths'], ck, cfg, d, job['locking'], seed, yield_p=job.get('yield_p', 0.2), yield_us=job.get('yield_us', 120))
+        x, slot, s0 = setup(job['paths'], ck, cfg, d, job['locking'], seed, yield_p=job.get('yield_p', 0.2), yield_us=job.get('yield_us', 120), pre=job.get('pre'))
         scripts = []; exps = []
         for t in range(nth): S, E = gen_script(ck, x, slot, t, rnd, job['iters'], wl); scripts.append(S); exps.append(E)
         t0 = time.time()
@@ -164,6 +166,8 @@ def stress_job(job):
         except Hang:
             part.violation(f'deadlock-or-hang|{wl}', 'no reply from the threads run within the watchdog (deadlock)', {'workload': wl, 'threads': nth, 'seed': seed, 'locking': job['locking'], 'cfg': cfg}); return part
         calls, created, destroyed = judge_threads(ck, wl, scripts, exps, r['results'], V)
+        if job['locking'] == 'cb' and not (r.get('locks') or 0) > 0:
+            V('locking|application-mutex-callbacks-never-invoked', 'C_Initialize was given mutex callbacks but the library never called LockMutex during a concurrent run: locking is not in effect', {'pre': job.get('pre'), 'locks': r.get('locks')})
         overlap = sum(1 for res in r['results'] if res) >= 2
         # quiescent conservation check through the setup session (user still logged in, except after login churn)
         if wl == 'login-churn': x.call('C_Login', s=s0, user=1, pin=USER.hex())
@@ -380,7 +384,8 @@ def run(ctx):
         for nth in tcounts:
             for i in range(seeds):
                 locking = 'cb' if i % 2 == 0 else 'os'
-                jobs.append(dict(common, kind='stress', cfg='asan', wl=wl, threads=nth, seed=ctx.seed * 1000 + i, iters=ctx.q(25, 40), locking=locking, yield_p=[0.2, 0.03][(i // 2) % 2], yield_us=[120, 8000][(i // 2) % 2]))
+                jobs.append(dict(common, kind='stress', cfg='asan', wl=wl, threads=nth, seed=ctx.seed * 1000 + i, iters=ctx.q(25, 40), locking=locking, yield_p=[0.2, 0.03][(i // 2) % 2], yield_us=[120, 8000][(i // 2) % 2],
+                                 pre=[None, None, ('null',), ('none',), ('os',), ('null', 'os')][(i + WORKLOADS.index(wl)) % 6]))
         for i in range(ctx.q(1, 6)):
             jobs.append(dict(common, kind='stress', cfg='tsan', wl=wl, threads=ctx.q(6, 8), seed=ctx.seed * 1000 + 500 + i, iters=ctx.q(8, 12), locking='cb' if i % 2 == 0 else 'os'))
     for i in range(ctx.q(16, 64)):
